@@ -125,7 +125,7 @@ class FastLen(Unit):
 def units(tier):
     us = []
     if tier == "quick":
-        edges = [0, 64, 256, 512, 1024, 2048, 4096, 8192] + [2**13 * k for k in range(2, 17)]
+        edges = [0, 64, 256, 512, 1024, 2048, 4096, 8192] + [2**14 * k for k in range(1, 9)]
     else:
         edges = [0, 1024, 4096] + [2**13 * k for k in range(1, 9)] + [2**16 * k for k in range(2, 17)]
     for which in ("next", "prev"):
@@ -142,7 +142,7 @@ def units(tier):
             q *= p
     special = sorted(special)
     if tier == "quick":
-        special = [s for i, s in enumerate(special) if i % 4 == 0]
+        special = [s for i, s in enumerate(special) if i % 6 == 0]
     for s in special:
         for which in ("next", "prev"):
             us.append(FastLen(which, s - W, s + W))
